@@ -139,6 +139,9 @@ def run(ctx: Ctx) -> None:
                     detail = f"with {req} requests and maximum {mx}: GOAWAY is {got}, expected {want}"
         ok = ok and ("isinstance(event, h2.events.RequestReceived)", True) in guard_atoms(cc[0])
     ctx.check("C18.R2", "protocol.h2:H2Protocol._handle_events", "GOAWAY iff keep_alive_requests > keep_alive_max_requests (one more than HTTP/1)", ok, detail or "HTTP/2 request-maximum comparison missing", cc[0] if cc else he)
+    crs = find_calls(he, "self._create_stream")
+    ok = bool(cc) and bool(crs) and crs[0].lineno < cc[0].lineno and not any(isinstance(a, ast.If) and any(crs[0] is x for x in ast.walk(a)) and any(cc[0] is x for x in ast.walk(a)) and a.test is not None and "RequestReceived" not in norm(a.test) for a in __import__("hcverif.astq", fromlist=["ancestors"]).ancestors(cc[0]))
+    ctx.check("C18.R2", "protocol.h2:H2Protocol._handle_events", "the request is counted (_create_stream) before the maximum is compared", ok, "comparing before the new stream was counted lets one more request through", cc[0] if cc else he)
     for mod in ("asyncio.worker_context", "trio.worker_context"):
         mr = repo.func(mod, "WorkerContext.mark_request")
         w = f"{mod}:WorkerContext.mark_request"
